@@ -47,6 +47,7 @@ class WorkersFamily(Family):
         for rep in range(reps):
             for w in ("audit", "sshd"):
                 cs.append(dict(worker=w, state="opening", cap=0, fill=0, rep=rep))
+                cs.append(dict(worker=w, state="precancelled", cap=0, fill=0, rep=rep))
                 cs.append(dict(worker=w, state="reading", cap=0, fill=0, rep=rep))
             for cap in caps:
                 for fill in sorted({0, cap // 2, cap}):
@@ -62,7 +63,7 @@ class WorkersFamily(Family):
         return self.cases("thorough", rng)[:150]
 
 
-CAUSES = ["eof-sshd", "eof-audit", "badline", "writeerr", "sigterm", "sigint", "notfifo-sshd", "notfifo-audit"]
+CAUSES = ["eof-sshd", "eof-audit", "badline", "writeerr", "writeerr-audit", "sigterm", "sigint", "notfifo-sshd", "notfifo-audit"]
 
 
 class DaemonFamily(Family):
@@ -73,7 +74,7 @@ class DaemonFamily(Family):
     trusted = WorkersFamily.trusted + ["process exit, signal delivery and wall-clock time are outside the model; observed on the daemon built from the working tree"]
     assumptions = ["bounded time = exit within 5 s of the fault; load = a writer streaming audit records into the audit pipe as fast as the pipe takes them (the 10000-line buffer fills because the processor is slower than the ingester)",
                    "observation X:<exited>:<non-zero status>"]
-    rule = "every failure cause (sshd pipe EOF, audit pipe EOF, unparsable audit line, event write failure on /dev/full, SIGTERM, SIGINT, sshd path not a FIFO, audit path not a FIFO) at idle and under sustained audit load, on the built binary; every case is non-trivial"
+    rule = "every failure cause (sshd pipe EOF, audit pipe EOF, unparsable audit line, event write failure on the sshd side (/dev/full) and on the audit side (output reader gone, correlated session), SIGTERM, SIGINT, sshd path not a FIFO, audit path not a FIFO) at idle and under sustained audit load, on the built binary; every case is non-trivial"
 
     def harness_line(self, c):
         return "%s %s %d" % (c["id"], c["cause"], c["load"])
